@@ -109,6 +109,12 @@ def validate(ctx, name, target=None, rid='R13.1', only_groups=False, gid='R14.1'
         is_message = any(b.get('q') == 'FIX8::Message' for b in m.records.get(df.cls, {}).get('bases', []))
         if is_message and egroups and set(df.ctor_groups) != set(egroups):
             problems.append('deep constructor registers groups %s, schema groups %s' % (sorted(df.ctor_groups), sorted(egroups)))
+        if (not is_message) and df.elem_groups is not None:
+            if set(df.elem_groups) != set(egroups):
+                problems.append('create_group(deep) registers nested groups %s, schema groups %s' % (sorted(df.elem_groups), sorted(egroups)))
+            for k, cls in df.elem_groups.items():
+                if k in df.groups and df.groups[k].cls != cls:
+                    problems.append('create_group(deep) creates %s for %s, nested group class is %s' % (cls, k, df.groups[k].cls))
         if not (only_groups and not is_group):
             ctx.check(not problems, r_id, '%s:%s#definition' % (tag, where), t['schema'],
                       '%s: %d members, order, mandatory/group bits, type codes, counts and %d nested group(s) agree with the schema%s'
